@@ -347,6 +347,21 @@ def job(arg):
                         rep.violate("%s/%s [other process]: %r (%s) read back as %s" % (kind, sc, path, tag, repr(v)[:80]), case, mechanism="read-wrong-value")
                     if ref is not None and reads and reads[-1] != ref:
                         rep.violate("%s/%s [other process]: %r written with codec %s but decoded by %s" % (kind, sc, path, ref, reads[-1]), case, mechanism="decoded-by-other-codec")
+        # a frame written by an older version of the library names the codec 'default.pandas_local'
+        if kind == "local" and "/c17/frame0" in written and written["/c17/frame0"][2] == "local.pandas":
+            key = written["/c17/frame0"][3]
+            metap = os.path.join(root, "internal", "blobs", key + ".meta")
+            meta = json.load(open(metap))
+            meta["protocol"] = "default.pandas_local"
+            with open(metap, "w") as f:
+                json.dump(meta, f)
+            try:
+                v = _set_store(kind, root).fetch_blob(key)
+                rep.count("legacy_pandas_reads")
+                if not SM.values_equal(v, written["/c17/frame0"][1]):
+                    rep.violate("local/%s: frame blob with the legacy ref default.pandas_local read back as %s" % (sc, repr(v)[:80]), case, mechanism="legacy-pandas-ref")
+            except BaseException as e:
+                rep.violate("local/%s: frame blob with the legacy ref default.pandas_local: %s: %s" % (sc, type(e).__name__, str(e)[:120]), case, mechanism="legacy-pandas-ref")
         rep.bump("write_refs", ",".join(sorted(set(str(w[2]) for w in written.values()))))
         if len(written) >= 2:
             rep.nontriv(("c17", kind, sc, repr(tags)))
